@@ -50,7 +50,24 @@ def _c06_parts(tier):
              "per_fork": 1, "wall_s": 120 if q else 1500, "run_timeout_s": 120}]
 
 
+def _c14_parts(tier):
+    from sim.engines import c14
+    q = tier == "quick"
+    return [{"engine": "c14", "params": c14.default_params(tier), "runs": 16_000 if q else 400_000,
+             "per_fork": 1, "wall_s": 90 if q else 1500, "run_timeout_s": 180}]
+
+
 SPECS = {
+    "C14": {
+        "level": "exploration",
+        "parts": _c14_parts,
+        "rule": "case = element-mode program (after a drawn history prefix) or a recursive chain (depth, wrap pattern); "
+                "distinct = program skeleton / chain pattern; non-trivial = >=2 instances and at least one root element "
+                "(programs), depth >= 2 (chains)",
+        "real_vs_stub": RENDER_REAL,
+        "assumptions": ["instances are tied to real ids through Component.id echoed by the lexical owner into data-o; "
+                        "instances that own no element are matched by their root-position signature"],
+    },
     "C06": {
         "level": "fault_enumeration",
         "parts": _c06_parts,
@@ -138,6 +155,14 @@ MANIFEST_META = {
         "level_note": "Trusted: gc.collect() + weakrefs as reachability oracle; module-level containers + gc object count as "
                       "growth measure; BaseException faults out of scope.",
     },
+    "C14": {
+        "engine": "render-sim", "design_ref": "DESIGN.md 4/C14",
+        "technique": _DST.format(what="element-mode programs x history prefixes x id streams, plus a depth knob (chains to 2000)",
+                                 faults="injected callback exceptions / cache clears / GC in the history prefix"),
+        "level_text": "Seeded exploration: the set of elements carrying each instance's id must equal the model's root-element set; "
+                      "ids distinct and equal to Component.id; depth knob without recursion limit.",
+        "level_note": "Trusted: instance-tree model of the rendered structure; case-preserving regex tag scanner for the generated HTML subset.",
+    },
     "C15": {
         "engine": "state-sim", "design_ref": "DESIGN.md 4/C15",
         "technique": "deterministic simulation (fault-free corner): seeded operation histories against a dict/tag-set reference "
@@ -171,7 +196,6 @@ NOT_APPLICABLE = {
     "C12": "totality and a time bound of pure parsing functions: input fuzzing / performance, about which deterministic "
            "simulation decides nothing",
     "C13": "escaping, merge order and end-tag refusal are pure functions of the given dicts and strings",
-    "C14": "not claimed yet (build in progress)",
     "C16": "not claimed yet (build in progress)",
     "C17": "what the finder exposes is a pure function of (directory tree, settings, lookup path); read-only single-shot scan, "
            "nothing carried between calls, insensitive to listing order",
